@@ -260,12 +260,16 @@ func propC01Partition(c *Ctx, m *convergeModel, rule string) {
 	}
 	var pStart ssa.Value
 	var pLimit *ssa.Parameter
-	for _, p := range ld.Params {
-		switch p.Name() {
-		case "start":
-			pStart = p
-		case "limit":
-			pLimit = p
+	if a, b := rangeParams(ld); a != nil && b != nil {
+		pStart, pLimit = a, b
+	} else if b != nil {
+		pLimit = b
+	} else {
+		// the recorded position is handed over as a whole: the one uint64 parameter left is the number of blocks
+		for _, p := range ld.Params {
+			if bt, ok := p.Type().Underlying().(*types.Basic); ok && bt.Kind() == types.Uint64 {
+				pLimit = p
+			}
 		}
 	}
 	ldReg := NewRegion(ld)
